@@ -5,6 +5,8 @@ import (
 	"errors"
 	"fmt"
 	"net/http"
+	"sort"
+	"strings"
 	"sync"
 	"time"
 
@@ -99,7 +101,7 @@ func subseq(got, want []string) bool {
 }
 
 func c02(run *ev.Run) int {
-	run.SetRule("cases = (HTTP version x protocol x codec x kind) x code 1..16 x 16 message text classes, with error source {handler *Error, plain error, interceptor before/after}, details k in {0,1,3}, metadata multimap and messages-before-error in {0,1,3} drawn per case from the seed (thorough: details and before enumerated); distinct by (config, code, text class, source, k, before)")
+	run.SetRule("cases = (HTTP version x protocol x codec x kind) x code 1..16 x 16 message text classes, with error source {handler *Error, plain error, interceptor before/after}, details k in {0,1,3}, metadata multimap (one case in three with handler-set response headers/trailers under the same keys) and messages-before-error in {0,1,3} drawn per case from the seed (thorough: details and before enumerated); distinct by (config, code, text class, source, k, before)")
 	run.Assume("messages are valid UTF-8; metadata is printable ASCII without leading/trailing blanks under non-reserved keys; gRPC over HTTP/1.1 keeps trailers under net/http's 4 KiB trailer limit")
 	ic := &c02Icept{before: map[string]error{}, after: map[string]error{}}
 	srv := svc.NewServer(connect.WithInterceptors(ic))
@@ -235,6 +237,29 @@ func c02Case(run *ev.Run, srv *svc.Server, ic *c02Icept, cs *svc.ClientSet, kind
 		sent = append(sent, m)
 		prog.Steps = append(prog.Steps, svc.Step{Op: "send", Msg: m})
 	}
+	// one case in three: the handler has also set response trailers and headers
+	// under keys that the error's metadata uses; everything the error carries
+	// must still arrive (next to, not instead of, the handler's own values)
+	sharedKeys := ""
+	if len(meta) > 0 && rr.Intn(3) == 0 {
+		var keys []string
+		for mk := range meta {
+			keys = append(keys, mk)
+		}
+		sort.Strings(keys)
+		tk := keys[rr.Intn(len(keys))]
+		hk := keys[rr.Intn(len(keys))]
+		val := func(k, v string) string {
+			if strings.HasSuffix(strings.ToLower(k), "-bin") {
+				return refcodec.B64Encode([]byte(v))
+			}
+			return v
+		}
+		prog.Trailer = http.Header{tk: {val(tk, "handler-trailer")}}
+		prog.Header = http.Header{hk: {val(hk, "handler-header")}}
+		sharedKeys = "trailer=" + tk + " header=" + hk
+		run.Count("errors.with_shared_metadata_keys", 1)
+	}
 	call := srv.Reg.New("c02", prog)
 	defer srv.Reg.Drop(call)
 	defer cs.Tap.Forget(call.ID)
@@ -269,7 +294,7 @@ func c02Case(run *ev.Run, srv *svc.Server, ic *c02Icept, cs *svc.ClientSet, kind
 		return
 	}
 	detail := map[string]any{"config": cfg, "code": code.String(), "text_class": className, "text": text, "source": src, "details": k, "before": before, "failed_send_first": badSend,
-		"client_err": errStr(cl.Err), "client_msgs": gen.DescribeSeq(cl.Msgs), "meta_sent": meta}
+		"client_err": errStr(cl.Err), "client_msgs": gen.DescribeSeq(cl.Msgs), "meta_sent": meta, "handler_headers_trailers_sharing_keys": sharedKeys}
 	if cl.Err == nil {
 		run.Violation(key+"/delivered-as-success", "handler error was delivered to the client as success", detail)
 		return
